@@ -498,5 +498,75 @@ func c16c(c *Ctx) {
 			check(v, c.W.Pos(a.Pos()))
 		})
 	}
+	// (iv) every token field that a marker site reads is set wherever the parser builds a node of
+	// that type (otherwise some way of producing the node yields a marker for line 0)
+	try := c.Fn("emitter.tryEmitLineMarker")
+	if try != nil {
+		type tf struct{ typ, field string }
+		used := map[tf]string{}
+		for _, fn := range c.W.FuncsOf("emitter") {
+			for _, call := range callsToIn(fn, try) {
+				v := call.Common().Args[1]
+				// the token is a load of field f of some struct (possibly a copy of an AST field)
+				if u, ok := v.(*ssa.UnOp); ok {
+					if fa, ok := u.X.(*ssa.FieldAddr); ok {
+						if n := namedOf(fa.X.Type()); n != nil && n.Obj().Pkg() != nil && n.Obj().Pkg().Name() == "ast" {
+							used[tf{n.Obj().Name(), fieldName(fa.X.Type(), fa.Field)}] = c.W.Pos(call.Pos())
+						}
+					}
+				}
+				if f, ok := v.(*ssa.Field); ok {
+					if n := namedOf(f.X.Type()); n != nil && n.Obj().Pkg() != nil && n.Obj().Pkg().Name() == "ast" {
+						used[tf{n.Obj().Name(), fieldName(f.X.Type(), f.Field)}] = c.W.Pos(call.Pos())
+					}
+				}
+			}
+		}
+		nF := 0
+		for k, where := range used {
+			nF++
+			bad := ""
+			nAlloc := 0
+			for _, fn := range c.W.FuncsOf("parser") {
+				if isTestFunc(c.W, fn) {
+					continue
+				}
+				instrs(fn, func(in ssa.Instruction) {
+					a, ok := in.(*ssa.Alloc)
+					if !ok || (a.Comment != "complit" && a.Comment != "new") || !typeIs(a.Type(), "ast", k.typ) {
+						return
+					}
+					nAlloc++
+					var val string
+					if _, isPtrToStruct := deref(a.Type()).Underlying().(*types.Struct); isPtrToStruct {
+						// value at the point the node is complete
+						use := lastUseOrLoad(a)
+						for _, r := range returnsOf(fn) {
+							if len(r.Results) > 0 && r.Results[0] == ssa.Value(a) {
+								use = r
+							}
+						}
+						val = c.fieldAtUse(fn, a, k.field, use)
+					}
+					if val == "zero" || val == "" {
+						bad = c.W.Pos(a.Pos())
+					}
+				})
+			}
+			c.Check(bad == "", "marker-field-always-set/"+k.typ+"."+k.field, where, fmt.Sprintf("ast.%s.%s (read by a line marker) is set at all %d construction sites", k.typ, k.field, nAlloc), "ast."+k.typ+"."+k.field+" is read by the line marker at "+where+" but the node built at "+bad+" leaves it unset: that marker would name line 0")
+		}
+		c.Check(nF >= 6, "marker-fields", "-", fmt.Sprintf("%d AST token fields are read by marker sites", nF), fmt.Sprintf("only %d AST token fields found at marker sites", nF))
+	}
 	c.Check(nOp >= 3, "operand-tokens/sites", "-", fmt.Sprintf("%d operand tokens checked", nOp), fmt.Sprintf("only %d operand token sites found, expected 3", nOp))
+}
+
+// lastUseOrLoad: for struct values built in a local (complit stored whole later) use the
+// whole-value load, otherwise the instruction after the last field store.
+func lastUseOrLoad(a *ssa.Alloc) ssa.Instruction {
+	for _, ref := range *a.Referrers() {
+		if u, ok := ref.(*ssa.UnOp); ok && u.X == ssa.Value(a) {
+			return u
+		}
+	}
+	return lastUse(a)
 }
